@@ -7,7 +7,8 @@ package raftpb
 
 //@ func GetEntrySliceInMemSize [C19]
 
-//@ func GetEntrySliceSize [C19]
+//@ func GetEntrySliceSize [C19 C13]
+//@ ensures len(ents) == 0 ==> result == 0
 
 // ---------------------------------------------------------------- C13: sizes of the hand-written Entry codec (Int mode, exact machine arithmetic)
 
@@ -60,3 +61,39 @@ package raftpb
 //@ modifies elems(buf)
 //@ ensures result0 == m.esize() && result1 == nil
 
+
+// protobuf-style varints (gogo generated helpers)
+//@ func sovRaft [C13]
+//@ ensures result == vlen(x)
+//@ loop 1 invariant n >= 0 && x >= 0 && (n == 0 ==> x == old(x)) && (n > 0 ==> x > 0 && n + vlen(x) == vlen(old(x)))
+
+//@ func encodeVarintRaft [C13]
+//@ requires offset >= 0 && offset + vlen(v) <= len(dAtA)
+//@ modifies elems(dAtA)
+//@ ensures result == offset + vlen(v)
+//@ loop 1 modifies elems(dAtA)
+//@ loop 1 invariant offset >= 0 && v >= 0 && offset + vlen(v) == old(offset) + vlen(old(v))
+
+//@ pred (m *State) ssize() := 3 + vlen(m.Term) + vlen(m.Vote) + vlen(m.Commit)
+
+//@ func (m *State) Size [C13]
+//@ ensures m != nil ==> result == m.ssize() && result <= 56
+//@ ensures m == nil ==> result == 0
+
+//@ func (m *State) SizeUpperLimit [C13]
+//@ ensures result == 56
+
+//@ func (m *State) MarshalTo [C13]
+//@ requires len(dAtA) >= m.ssize()
+//@ modifies elems(dAtA)
+//@ ensures result0 == m.ssize() && result1 == nil
+
+// the advertised size of the Tan Update record covers the hard state's upper limit, every entry's
+// upper limit and the snapshot record
+//@ func (m *Snapshot) Size [C13]
+//@ trusted gogo-generated codec of a map-bearing message (assumed; bounded stand-in only)
+//@ ensures result >= 0
+
+//@ func (u *Update) SizeUpperLimit [C13]
+//@ ensures len(u.EntriesToSave) == 0 && u.Snapshot.Index == 0 ==> result == 22 + 56 + 48
+//@ ensures len(u.EntriesToSave) == 0 && u.Snapshot.Index != 0 ==> result >= 22 + 56
